@@ -312,6 +312,10 @@ MUTANTS = [
      [("src/yaml/encoding.rs", "\t\t\t0xDC00..=0xDFFF => Self::Trail(unit),", "\t\t\t0xDC00..=0xDFFE => Self::Trail(unit),")]),
     ("f08-claim-does-not-mark", "violations", "F08", "C08", "R08.1", "the test-and-set helper reads the state without marking the output as used",
      [("src/toml.rs", "\t\tmem::replace(&mut self.usage, Usage::Spent)", "\t\tself.usage")]),
+    ("e18-enter-returns-same-budget", "violations", "E18", "C18", "R18.3", "the checked-decrement helper tests the budget but hands back the undecremented value: nesting no longer uses up depth",
+     [("src/msgpack.rs", "\t\tSome(inner_limit) => Ok(inner_limit),", "\t\tSome(_) => Ok(depth_limit),")]),
+    ("f04-descend-wraps", "violations", "F04", "C18", "R18.3", "the newtype's descend() uses wrapping_sub and never fails: the recursion is unbounded",
+     [("src/msgpack.rs", "\t\tmatch self.0.checked_sub(1) {\n\t\t\tSome(remaining) => Ok(Depth(remaining)),\n\t\t\tNone => Err(ReadSizeError::DepthLimitExceeded),\n\t\t}", "\t\tOk(Depth(self.0.wrapping_sub(1)))")]),
     ("r48-stash-ignored", "violations", "R48", "C12", "R12.2", "the reader's own error is discarded in favour of libyaml's",
      [("src/yaml/chunker/parser.rs", "Some(read_err) => read_err,", "Some(_) => io::Error::new(io::ErrorKind::InvalidData, \"read failed\"),")]),
     ("r49-scratch-tail", "violations", "R49", "C07", "R07.7", "remainder taken from the whole scratch array",
